@@ -90,9 +90,9 @@ class TRS:
     """
 
     # Regex patterns for unpacking Twp/Rge/Sec
-    _TWP_RGX = r"((?P<twp_num>\d{1,3})(?P<ns>[nsNS]))"
-    _RGE_RGX = r"((?P<rge_num>\d{1,3})(?P<ew>[ewEW]))"
-    _SEC_RGX = r"\d{2}"
+    _TWP_RGX = r"((?P<twp_num>[0-9]{1,3})(?P<ns>[nsNS]))"
+    _RGE_RGX = r"((?P<rge_num>[0-9]{1,3})(?P<ew>[ewEW]))"
+    _SEC_RGX = r"[0-9]{2}"
 
     # Based on the above, compile the regex pattern for unpacking
     # Twp/Rge/Sec in this module.
